@@ -1,5 +1,6 @@
 ---- MODULE MC_Bbr ----
 EXTENDS Sys_Bbr
 MdsUp3 == {3}
-PrQ    == {0, 5}
+PrQ    == {0}
+PrB    == {0, 5}
 ====
